@@ -1399,10 +1399,13 @@ bool tNMEA2000::SendFrame(unsigned long id, unsigned char len, const unsigned ch
 
 #if !defined(N2K_NO_HEARTBEAT_SUPPORT)
 //*****************************************************************************
-void tNMEA2000::SetHeartbeatIntervalAndOffset(uint32_t interval, uint32_t offset, int iDev) {
-  if ( interval==0xffffffff && offset==0xffff ) return; // Do not change
+void tNMEA2000::SetHeartbeatIntervalAndOffset(uint32_t _interval, uint32_t _offset, int iDev) {
+  if ( _interval==0xffffffff && _offset==0xffff ) return; // Do not change
   InitDevices();
   for (int i=(iDev<0?0:iDev); i<DeviceCount && (iDev<0?true:i<iDev+1); i++) {
+    // Resolve "keep current" separately for each device.
+    uint32_t interval=_interval;
+    uint32_t offset=_offset;
     if ( interval==0xffffffff ) {
       interval=Devices[i].HeartbeatScheduler.GetPeriod();
     } else if (interval==0xfffffffe) { // restore default
